@@ -1,6 +1,7 @@
 """Self-test corpus for C14: text edits on a scratch overlay (never on /repo)."""
 OM = "hippolyzer/lib/client/object_manager.py"
 EV = "hippolyzer/lib/base/events.py"
+POM = "hippolyzer/lib/proxy/object_manager.py"
 
 _UNPARENT_LOOP = (
     "        former_child_ids = obj.ChildIDs[:]\n"
@@ -197,6 +198,29 @@ VARIANTS = [
             "\n"
             "        for kid in kids:\n"
             "            self._track_orphan(kid, parent_id=obj.LocalID)\n"},
+    # ---- R2 kill handler / R7 latches (round 3)
+    {"name": "R2 KillObject blocks skipped under an extra condition", "file": OM, "expect": "C14.R2",
+     "old": "            self._kill_object_by_local_id(region_state, block[\"ID\"])\n            seen_locals.append(block[\"ID\"])\n",
+     "new": "            seen_locals.append(block[\"ID\"])\n            if block[\"ID\"] in region_state.missing_locals:\n"
+            "                continue\n            self._kill_object_by_local_id(region_state, block[\"ID\"])\n"},
+    {"name": "P R2 KillObject bookkeeping before the kill", "file": OM, "expect": "silent",
+     "old": "            self._kill_object_by_local_id(region_state, block[\"ID\"])\n            seen_locals.append(block[\"ID\"])\n",
+     "new": "            killed_id = block[\"ID\"]\n            seen_locals.append(killed_id)\n"
+            "            self._kill_object_by_local_id(region_state, killed_id)\n"},
+    {"name": "R7 teardown keeps the object-cache latch set", "file": POM, "expect": "C14.R7",
+     "old": "        self.object_cache = RegionViewerObjectCacheChain([])\n        self.cache_loaded = False\n"
+            "        self.queued_cache_misses.clear()\n",
+     "new": "        self.object_cache = RegionViewerObjectCacheChain([])\n        self.queued_cache_misses.clear()\n"},
+    {"name": "P R7 cache reset extracted into a helper", "expect": "silent",
+     "edits": [
+         {"file": POM, "old": "        self.object_cache = RegionViewerObjectCacheChain([])\n        self.cache_loaded = False\n"
+                              "        self.queued_cache_misses.clear()\n",
+          "new": "        self._forget_cache()\n        self.queued_cache_misses.clear()\n"},
+         {"file": POM, "old": "    def _is_localid_selected(self, localid: int):\n",
+          "new": "    def _forget_cache(self):\n        self.cache_loaded = False\n"
+                 "        self.object_cache = RegionViewerObjectCacheChain([])\n\n"
+                 "    def _is_localid_selected(self, localid: int):\n"},
+     ]},
     # ---- documented limits
     {"name": "X missing_locals bookkeeping dropped (not observed by the statement)", "file": OM, "expect": "miss",
      "old": "        self.missing_locals -= {obj.LocalID}\n", "new": ""},
